@@ -4,6 +4,7 @@ package gen
 import (
 	"math"
 	"math/big"
+	"time"
 	"unicode/utf8"
 
 	"github.com/cockroachdb/apd/v2"
@@ -434,7 +435,8 @@ func nanos(t *rapid.T, label string) int {
 }
 
 // StrictCalendar restricts TimeValue to values time.Time can hold unchanged: no leap second 60, no
-// February 29th outside leap years (compact_time's Validate accepts both).
+// February 29th outside leap years (compact_time's Validate accepts both), no local time inside a
+// daylight-saving gap of its area/location.
 var StrictCalendar bool
 
 func realDate(y, m, d int) bool {
@@ -464,6 +466,16 @@ func TimeValue(t *rapid.T, label string) compact_time.Time {
 		}
 		if StrictCalendar && (v.Second > 59 || (v.Type != compact_time.TimeTypeTime && !realDate(v.Year, int(v.Month), int(v.Day)))) {
 			continue
+		}
+		if StrictCalendar && v.Type == compact_time.TimeTypeTimestamp && v.Timezone.Type == compact_time.TimezoneTypeAreaLocation {
+			// a local time inside a daylight-saving gap (1999-04-04 02:03 in America/Vancouver) does not
+			// exist: time.Time normalises it to another wall-clock time
+			if loc, err := time.LoadLocation(v.Timezone.LongAreaLocation); err == nil {
+				g := time.Date(v.Year, time.Month(v.Month), int(v.Day), int(v.Hour), int(v.Minute), int(v.Second), int(v.Nanosecond), loc)
+				if g.Hour() != int(v.Hour) || g.Minute() != int(v.Minute) || g.Day() != int(v.Day) {
+					continue
+				}
+			}
 		}
 		if v.Validate() == nil && !v.IsZeroValue() {
 			return v
